@@ -8,7 +8,8 @@ Result is written to seeded/<ID>/meta.json (copied patch.diff + demo.py alongsid
 import json, os, shutil, subprocess, sys, tempfile
 ROOT = os.path.dirname(os.path.dirname(os.path.abspath(__file__)))
 pid = sys.argv[1]
-dst = os.path.join(ROOT, "seeded", pid)
+name = sys.argv[3] if len(sys.argv) > 3 else pid
+dst = os.path.join(ROOT, "seeded", name)
 src = sys.argv[2] if len(sys.argv) > 2 else ("/tmp/seedwork/out/%s" % pid if os.path.isdir("/tmp/seedwork/out/%s" % pid) else dst)
 
 
@@ -58,4 +59,4 @@ out = {"property": pid, "summary": meta.get("summary"), "needs": meta.get("needs
                    ("NOT caught by the quick tier" if valid else "seed rejected (did not verify): %s" % {k: res.get(k) for k in ("applies", "demo_unchanged_exit", "demo_changed_exit", "baseline_ok")}),
        "what_was_run": "tools/seedcheck.py %s (patch applied to a scratch worktree of /repo HEAD; demo on both trees; tools/baseline.py; ./vcheck %s --tier quick with VERIF_REPO=<worktree>)" % (pid, pid)}
 json.dump(out, open(os.path.join(dst, "meta.json"), "w"), indent=1)
-print(pid, "valid=%s detected=%s" % (res["valid_seed"], res.get("detected")), res.get("vcheck_buckets", [])[:2], res.get("baseline_line"))
+print(name, "valid=%s detected=%s" % (res["valid_seed"], res.get("detected")), res.get("vcheck_buckets", [])[:2], res.get("baseline_line"))
